@@ -1302,6 +1302,12 @@ class BuiltinMixin:
     def m_StringIO_getvalue(self, st, ref, args, kwargs):
         return [(st, st.deref(ref).fields.get("__text__", VStr(z3.StringVal(""))))]
 
+    def b_contextlib_suppress(self, st, args, kwargs):
+        return [(st, VConst(("suppress", tuple(args))))]
+
+    def b_functools_partial(self, st, args, kwargs):
+        return [(st, VConst(("partial", args[0], tuple(args[1:]), tuple(kwargs.items()))))]
+
     def b_collections_defaultdict(self, st, args, kwargs):
         # only used as an empty per-context table (tag_namespace["extends"])
         return [(st, st.alloc(HDict()))]
